@@ -74,14 +74,14 @@ def oracle_delete_set(out_root, recorded, follow_links=False):
     return sorted(dele)
 
 
-def make(cwds=("", "src")):
+def make(cwds=("", "src"), catalogue=None):
     def fn(g):
         import conductor.cli.gc as cli_gc
         proj = hrun.Project()
         try:
             (proj.root / "src").mkdir()
             proj.write("COND", "run_experiment(name='e', run='true')\nrun_command(name='c', run='true')\n")
-            present = [c for i, c in enumerate(CATALOGUE) if g.flag("has%d" % i)]
+            present = [c for i, c in enumerate(catalogue or CATALOGUE) if g.flag("has%d" % i)]
             dry = g.flag("dry_run")
             verbose = g.flag("verbose")
             cwd = cwds[g.choose("cwd", len(cwds))] if len(cwds) > 1 else cwds[0]
@@ -319,6 +319,11 @@ def spaces(tier):
     return [Space("scale-rows-and-leftovers", scale_fn, "101 / 136 recorded versions of two tasks (rows interleaved) + 9 / 12 unrecorded outputs in the "
                   "same package, packages four levels deep, equal timestamps across tasks, cond-out or a package directory below it being a "
                   "symbolic link to another disk; gc and gc --dry-run", depth=4, goals=["more than 100 recorded versions"]),
+            ] + ([Space("catalogue-15", make(catalogue=CATALOGUE + [("l1/l2/l3/d.task.4", "dir", True), ("l1/l2/l3/d.task.6", "dir", False),
+                                                                       ("p/q/f.task.9/f.task.11", "dir", False)]),
+                        "every subset of a 15-entry catalogue (the 12 entries + recorded / unrecorded outputs three packages deep + a look-alike "
+                        "nested in a recorded version of the same task) x --dry-run x --verbose x working directory", depth=9, tiers=("thorough",))]
+                 if tier == "thorough" else []) + [
             Space("catalogue-12", make(), "every subset of a 12-entry catalogue (2^12 trees) x --dry-run x --verbose x working directory "
                   "{project root, a sub-directory}", depth=9, goals=goals, outside=["symlinks placed by hand inside package directories"])]
 
